@@ -10,6 +10,7 @@ from __future__ import annotations
 import copy
 import hashlib
 import json
+import os
 import random
 
 from .. import gen, harness, oracles, threads
@@ -56,7 +57,8 @@ def generate(rng: random.Random, tier: str, seed: int) -> dict:
         base = gen.gen_pipeline(rng, max_nodes=4, allow_file_sink=False)
         job = {"nodes": base["nodes"], "context": base["context"], "init_data": base["init_data"], "gap": rng.choice([0.0, 0.0, 0.01, 0.15, 0.6]),
                "no_future": rng.random() < 0.15,            # fire-and-forget job (enqueue without return_future)
-               "ctx_none": rng.random() < 0.6}              # an empty context is passed as context=None
+               "ctx_none": rng.random() < 0.6,              # an empty context is passed as context=None
+               "as_yaml": rng.random() < 0.12}              # pipeline_cfg given as a path to a YAML file
         if j in fail_set:
             fs = [f for f in gen.applicable_failures(base) if f[0] in ("unresolvable", "type_gate", "undeclared_op", "undeclared_ctx", "unknown_param")]
             if fs:
@@ -133,7 +135,12 @@ def execute(sc: dict, seed: int) -> dict:
                         threads.sim_sleep(job["gap"])
                     data = None if job["init_data"] is None else FloatDataType(float(job["init_data"]))
                     ctx_arg = None if (not job["context"] and job.get("ctx_none")) else ContextType(copy.deepcopy(job["context"]))
-                    futures[i] = orch.enqueue(copy.deepcopy(job["nodes"]), data=data, context=ctx_arg,
+                    cfg_arg = copy.deepcopy(job["nodes"])
+                    if job.get("as_yaml"):
+                        harness.write_cli_config({"nodes": job["nodes"]}, f"job_{i}.yaml", executor=False)
+                        cfg_arg = os.path.join(w.sandbox, f"job_{i}.yaml")
+                        stats["probe.job_given_as_yaml_path"] = stats.get("probe.job_given_as_yaml_path", 0) + 1
+                    futures[i] = orch.enqueue(cfg_arg, data=data, context=ctx_arg,
                                               return_future=not job.get("no_future"))
                     sched.log("enqueue", i)
                 info["t_last_enqueue"] = sched.now
